@@ -2,6 +2,7 @@ package encrep
 
 import (
 	"bufio"
+	"bytes"
 	"context"
 	"encoding/json"
 	"fmt"
@@ -217,7 +218,20 @@ func RunKeys(outFile string, seed int64, n int) (*Report, error) {
 						if op.viaPayload {
 							// the sender hands out its own buffers and wipes them once the rotation event is processed
 							r.salt, r.info = cloneBytes(r.salt), cloneBytes(r.info)
-							out, err := flt.Process(context.Background(), &eventlogger.Event{Type: "t", Payload: r, Formatted: map[string][]byte{}})
+							snapS, snapI := cloneBytes(r.salt), cloneBytes(r.info)
+							// every other rotation payload also carries an event id (a common header on every payload of the
+							// application): a payload that rotates is a rotation, whatever else it offers
+							var rp interface{} = r
+							if n%2 == 0 {
+								rp = &rotWithID{rot: r, id: fmt.Sprintf("rot-%d-%s-%d", h, c, n)}
+							}
+							out, err := flt.Process(context.Background(), &eventlogger.Event{Type: "t", Payload: rp, Formatted: map[string][]byte{}})
+							if !bytes.Equal(r.salt, snapS) || !bytes.Equal(r.info, snapI) {
+								mu.Lock()
+								rep.mm(Mismatch{Props: []string{"C10"}, What: "Process modified the rotation payload it was given (its salt / info buffers)", Vector: op,
+									Expected: fmt.Sprintf("%q %q", snapS, snapI), Observed: fmt.Sprintf("%q %q", r.salt, r.info)})
+								mu.Unlock()
+							}
 							for i := range r.salt {
 								r.salt[i] = 0
 							}
